@@ -1,5 +1,6 @@
 (* Properties/C10.v — statements only; every proof is `exact <lemma>`. *)
-From Dnp3V Require Import Base.Bytes gen.Conversions App.FloatBits App.Convert App.FloatBitsProofs App.ConvertProofs.
+From Dnp3V Require Import Base.Bytes gen.Conversions App.FloatBits App.Convert App.FloatBitsProofs App.ConvertProofs
+  App.ConvertStaticProofs App.ConvertBytesProofs App.FloatBitsFlocq.
 Open Scope N_scope.
 
 (* P1 trip_exact: for every measurement type and every static or event variation (all conversion
@@ -90,6 +91,64 @@ Theorem C10_f32_round_trip : forall x, x < p32 -> fb32_exp x < 255 ->
 Proof. exact f32_round_trip. Qed.
 Print Assumptions C10_f32_round_trip.
 
+(* P1 index_and_flags_not_crossed (static): for every set of points of the static variations (sparse or
+   dense indices, any mix of configured variations, a requested variation or the defaults, all objects or a
+   range) the i-th measurement handed to the handler is the i-th selected point in index order, with its
+   own index and the value/flags of exactly that point as narrowed by the (promoted) variation; packed
+   formats g1v1/g3v1/g10v1 are unpacked to the right points *)
+Theorem C10_flags_not_crossed : forall s pts, Forall (st_wf s) pts ->
+  meas_of (extract None (write_static s pts)) = map (st_expect s) (filter (in_sel s) (sort_points pts)).
+Proof. exact static_exact. Qed.
+Print Assumptions C10_flags_not_crossed.
+
+(* P1 trip_narrowing, part 3: packed formats are written only for plainly ONLINE points; otherwise the
+   flagged variation of the same type is used *)
+Theorem C10_packed_only_online : forall g v0 m t k pr,
+  In (t, g, v0, k, pr) static_vars -> cm_flags m < 256 ->
+  exists k' pr', In (t, g, promote g v0 m, k', pr') static_vars /\
+    match k' with
+    | WkBits => cm_flags m mod 128 = 1
+    | WkDoubleBits => cm_flags m mod 64 = 1
+    | WkFixed => True
+    end.
+Proof. exact promote_spec. Qed.
+Print Assumptions C10_packed_only_online.
+
+(* the bytes on the wire: whatever the two writers produce (16-bit start/stop headers with fixed-size or
+   packed objects, count-and-prefix headers, g51 headers) is parsed back to exactly the same headers *)
+Theorem C10_parse_serialize : forall hs, Forall hdr_wf hs -> parse_objects (serialize hs) = Some hs.
+Proof. exact parse_objects_serialize. Qed.
+Print Assumptions C10_parse_serialize.
+
+(* the complete static trip of the `conv` engine (database points -> range writer -> bytes -> parser ->
+   extract_measurements): the master side sees exactly the written headers, and the handler receives, in
+   index order, every selected point with its own index, value and flags as narrowed by its variation *)
+Theorem C10_trip_static_bytes : forall s pts, Forall (st_wf16 s) pts ->
+  trip_static s pts = (serialize (write_static s pts), Some (extract None (write_static s pts))) /\
+  meas_of (extract None (write_static s pts)) = map (st_expect s) (filter (in_sel s) (sort_points pts)).
+Proof. exact trip_static_bytes. Qed.
+Print Assumptions C10_trip_static_bytes.
+
+(* the complete event trip (events -> event writer with its CTO rule -> bytes -> parser -> running CTO) *)
+Theorem C10_trip_event_bytes : forall req evs, Forall ev_wf16 (map (event_entry req) evs) ->
+  trip_event req evs = (serialize (write_events req evs), Some (extract None (write_events req evs))) /\
+  meas_of (extract None (write_events req evs)) = map ev_expect (map (event_entry req) evs).
+Proof. exact trip_event_bytes. Qed.
+Print Assumptions C10_trip_event_bytes.
+
+(* P2 to_f32_is_rounding_partial: the bit-level f64 -> f32 conversion agrees with Flocq's binary_normalize
+   (mode_NE, binary32) on every finite exponent field x both signs x boundary mantissas; see
+   App/FloatBitsFlocq.v for the full statement and what is missing *)
+Theorem C10_to_f32_is_rounding_partial :
+  forallb (fun e => forallb (fun m => forallb (fun s =>
+     fb64_to_f32 (s * p63 + (840 + e) * p52 + m) =? flocq_f64_to_f32 (s * p63 + (840 + e) * p52 + m)) [0; 1])
+     mant_samples) (nrange 1207) = true /\
+  forallb (fun e => forallb (fun m => forallb (fun s =>
+     fb64_to_f32 (s * p63 + e * p52 + m) =? flocq_f64_to_f32 (s * p63 + e * p52 + m)) [0; 1])
+     [0; 1; 4503599627370495]) (nrange 840) = true.
+Proof. exact to_f32_is_rounding_partial. Qed.
+Print Assumptions C10_to_f32_is_rounding_partial.
+
 (* ---- non-vacuity ---------------------------------------------------------------------------------- *)
 (* 1e300 through g30v2 (i16 with flags): saturates to 32767 and gains exactly OVER_RANGE *)
 Example C10_ex_saturate_g30v2 :
@@ -142,3 +201,18 @@ Example C10_ex_cto_sequence :
   map (fun x => cm_time (snd x)) (meas_of (extract None (write_events 0 [ev (Sync, 1000); ev (Sync, 66535); ev (Sync, 66536); ev (Unsync, 66536)]))) =
   [Some (Sync, 1000); Some (Sync, 66535); Some (Sync, 66536); Some (Unsync, 66536)].
 Proof. vm_compute. split; reflexivity. Qed.
+
+(* the hypotheses of the trip theorems are satisfiable: three binary inputs configured g1v1, the middle
+   one not plainly ONLINE (promoted to g1v2: the run of packed bits is split around it) *)
+Example C10_ex_static_trip :
+  let pt := fun i v f => mk_cpoint i 1 1 (mk_cmeas v f None []) in
+  let pts := [pt 7 1 1; pt 8 1 3; pt 9 0 1] in
+  let s := mk_sel 0 None in
+  Forall (st_wf16 s) pts /\
+  write_static s pts = [HRange 1 1 7 7 [1]; HRange 1 2 8 8 [131]; HRange 1 1 9 9 [0]] /\
+  map (st_expect s) pts = [(OT BI, 7, mk_cmeas 1 1 None []); (OT BI, 8, mk_cmeas 1 131 None []); (OT BI, 9, mk_cmeas 0 1 None [])].
+Proof.
+  cbv zeta. split; [|vm_compute; split; reflexivity].
+  repeat constructor; try (vm_compute; reflexivity);
+    exists BI, WkBits, (Some (2, 128)); (split; [vm_compute; tauto|vm_compute; repeat split; try discriminate; reflexivity]).
+Qed.
